@@ -1,7 +1,7 @@
 SPECIFICATION Spec
 CONSTANTS MaxN = 4 MaxIter = 3 StrictA = FALSE GenMod = 1
   AsIs_UnconditionalUnshuffle = FALSE Mut_NoReshuffle = FALSE Mut_FeedUnlabeled = FALSE Mut_InverseMixup = FALSE
-CONSTANT Thresholds <- ThrSmall
+CONSTANT Thresholds <- ThrMid
 CONSTANT ShuffleVals <- BothB
 INVARIANT NoUnlabeledFed
 INVARIANT SamePsm
